@@ -39,3 +39,25 @@ Fixpoint pre_order (n : tnode) : list N :=
   | Stored _ => []
   | Dirty h cs => h :: flat_map pre_order cs
   end.
+
+(* ---- the memory layer: nodes leave it only after the batch holding them was written ----
+   trie.Database keeps dirty nodes in memory; Commit puts them into batches and, only after the
+   LAST batch was written successfully, uncaches them.  A node that is neither in memory nor
+   on disk is treated by later commits as "already committed" (commit returns at once), so
+   the discipline to keep is: every node of the universe is in memory or on disk. *)
+Record tdb := mkTdb { t_mem : list N; t_dsk : list N }.
+
+Definition inN (x : N) (l : list N) : bool := existsb (N.eqb x) l.
+
+(* a commit whose write sequence [w] reached the disk completely: uncache exactly [w] *)
+Definition commit_ok (w : list N) (s : tdb) : tdb :=
+  mkTdb (filter (fun h => negb (inN h w)) (t_mem s)) (t_dsk s ++ w).
+(* a commit that failed after the prefix [p] of its batches was written: nothing is uncached *)
+Definition commit_failed (p : list N) (s : tdb) : tdb := mkTdb (t_mem s) (t_dsk s ++ p).
+(* the wrong discipline: nodes are dropped from memory as soon as they are put into a batch
+   ([w] = everything put so far), whatever part [p] of it reached the disk *)
+Definition commit_failed_eager (p w : list N) (s : tdb) : tdb :=
+  mkTdb (filter (fun h => negb (inN h w)) (t_mem s)) (t_dsk s ++ p).
+
+Definition covered (univ : list N) (s : tdb) : Prop :=
+  forall h, In h univ -> In h (t_mem s) \/ In h (t_dsk s).
